@@ -92,6 +92,10 @@ class RefDC:
             self.violations.append("trailing bytes after ept_map arguments")
         floors = r["floors"] or []
         k = self.epm_knobs
+        if "raw_replies" in k:  # one reply per ept_map request, in arrival order (then the last one again)
+            lst = k["raw_replies"]
+            i = k["_served"] = k.get("_served", -1) + 1
+            return ("response", lst[min(i, len(lst) - 1)])
         if "raw_reply" in k:
             return ("response", k["raw_reply"])
         iface = None
